@@ -288,6 +288,41 @@ pub fn add_bank_with_seed(
     )
 }
 
+/// addresses the spl-single-pool program derives from a pool: (LST mint, SOL stake account)
+pub fn single_pool_keys(stake_pool: &Pubkey) -> (Pubkey, Pubkey) {
+    let pid = marginfi::constants::SPL_SINGLE_POOL_ID;
+    (Pubkey::find_program_address(&[b"mint", stake_pool.as_ref()], &pid).0, Pubkey::find_program_address(&[b"stake", stake_pool.as_ref()], &pid).0)
+}
+
+pub fn add_bank_permissionless(group: Pubkey, fee_payer: Pubkey, stake_pool: Pubkey, seed: u64, rem: Vec<AccountMeta>) -> (Pubkey, Ix) {
+    let (mint, sol_pool) = single_pool_keys(&stake_pool);
+    let bank = bank_with_seed_key(&group, &mint, seed);
+    (
+        bank,
+        mk(
+            A::LendingPoolAddBankPermissionless {
+                marginfi_group: group,
+                staked_settings: staked_settings_key(&group),
+                fee_payer,
+                bank_mint: mint,
+                sol_pool,
+                stake_pool,
+                bank,
+                liquidity_vault_authority: liquidity_vault_auth(&bank).0,
+                liquidity_vault: liquidity_vault(&bank).0,
+                insurance_vault_authority: insurance_vault_auth(&bank).0,
+                insurance_vault: insurance_vault(&bank).0,
+                fee_vault_authority: fee_vault_auth(&bank).0,
+                fee_vault: fee_vault(&bank).0,
+                token_program: spl_token::id(),
+                system_program: system_program::id(),
+            },
+            I::LendingPoolAddBankPermissionless { bank_seed: seed },
+            rem,
+        ),
+    )
+}
+
 pub fn configure_bank_oracle(group: Pubkey, admin: Pubkey, bank: Pubkey, setup: u8, oracle: Pubkey, rem: Vec<AccountMeta>) -> Ix {
     mk(
         A::LendingPoolConfigureBankOracle { group, admin, bank },
